@@ -9,7 +9,8 @@ EXPLANATION = (
     "plot_interp, batt_life and the diagram functions) on the System object is limited to the relationship / phase-lookup "
     "caches that every analysis rebuilds (and, for batt_life, the battery's vo/rs covered by R2); no law method, report "
     "helper or diagram function stores into, or calls a mutating method on, one of its arguments, an alias of one "
-    "(definite alias: an unbroken chain of plain assignments) or a module-level mutable constant, except through a fresh "
+    "(definite alias: an unbroken chain of plain assignments, or an element taken out of one by subscript / .get() and bound "
+    "only there) or a module-level mutable constant, except through a fresh "
     "copy (copy.deepcopy / a literal built in the caller); (R2) every parameter write inside batt_life is matched by a store "
     "of the value saved before the loop to the same location inside a `finally` clause that encloses all the writes, so "
     "the restore runs on normal return and on any exception, BaseException included. Not decided: global state of "
